@@ -120,6 +120,15 @@ def configs(tier):
         for c1i in range(len(C1_SPECS)):
             for c2i in range(len(C2_SPECS)):
                 out.append(dict(kind='prog', c0=((DEFAULT,), {}), c1=c1i, c2=c2i, ev=ev))
+    # input groups given as one-shot iterators (generator, iter(), map()): deprecated, accepted
+    for shape in ('group0', 'group1', 'group2', 'group3', 'mixed'):
+        for si, spec in enumerate(shape_specs(shape, REFS_C0)):
+            if tier == 'quick' and shape in ('group2', 'mixed') and si % 4:
+                continue
+            for gstyle in ('gen', 'iter'):
+                for c1i in ((2, 3) if tier == 'quick' else range(len(C1_SPECS))):
+                    out.append(dict(kind='prog', c0=spec, c1=c1i, c2=(si + c1i) % len(C2_SPECS),
+                                    ev='none', gstyle=gstyle))
     # shortcuts referenced by particular kinds of consumers only (explicit Not blocks, filters,
     # other shortcuts' targets ...): generic structure check over all blocks of the circuit
     for users in SHORTCUT_USERS:
@@ -164,7 +173,14 @@ def build(cfg):
             if name in ('g', 'h'):
                 # groups as a list or a tuple
                 seq = [mk(t) for t in val]
-                kw[name] = seq if j % 2 == 0 else tuple(seq)
+                gstyle = cfg.get('gstyle', 'seq')
+                if gstyle == 'gen':
+                    # iterators are deprecated as groups, but still accepted: one-shot objects
+                    kw[name] = (x for x in seq)
+                elif gstyle == 'iter':
+                    kw[name] = iter(tuple(seq)) if j % 2 == 0 else map(lambda x: x, seq)
+                else:
+                    kw[name] = seq if j % 2 == 0 else tuple(seq)
             else:
                 kw[name] = mk(val)
         ret = b.c[j].connect(*[mk(t) for t in args], **kw)
